@@ -38,7 +38,7 @@ CHILD = os.path.join(env.VERIF, "vmon", "c17_child.py")
 def required(tier):
     return ["history:after_failure", "history:repeat_same_text", "history:after_other_resolution", "threads:switches_inside_chartparse>=100",
             "threads:2", "threads:16", "baseline:valid", "baseline:failing", "selection_cases", "read_by_path_cases", "history:late_failure_then_sibling_with_other_tempi", "history:more_than_100000_skipped_lines_in_one_process",
-            "history:more_than_2000_text_events_in_one_process", "history:parsed_inside_the_except_handler_of_a_failed_parse",
+            "history:more_than_2000_text_events_in_one_process", "history:parsed_inside_the_except_handler_of_a_failed_parse", "history:earlier_chart_asked_again_after_later_parses",
             "cold_start:first_parses_of_the_process_were_concurrent"]
 
 
@@ -121,13 +121,20 @@ def outcome_of(text, want=None, path_bytes_hex=None) -> dict:
     # what the library REPORTS (level WARNING and above) belongs to the outcome; DEBUG/INFO diagnostics (cache statistics,
     # timings ...) may legitimately depend on the process history
     logs = [[a, b, c] for a, b, c in out.logs if b in ("WARNING", "ERROR", "CRITICAL")]
+    _LAST.chart = out.chart if out.ok else None
     if out.ok:
-        ch = out.chart
-        order = [(i.name, [d.name for d in m]) for i, m in ch.instrument_tracks.items()]
-        rendered = hashlib.sha256((str(ch) + "\x00" + repr(ch)).encode("utf-8", "surrogatepass")).hexdigest()
-        return {"ok": True, "obs": hashlib.sha256(observe.digest(harness.obs(ch)).encode()).hexdigest(), "order": order,
-                "rendered": rendered, "logs": logs, "answers": answers(ch)}
+        return describe(out.chart, logs)
     return {"ok": False, "err": [type(out.exc).__name__, str(out.exc)], "logs": logs}
+
+
+_LAST = threading.local()  # the chart object behind the latest outcome of this thread (histories keep some of them alive)
+
+
+def describe(ch, logs) -> dict:
+    order = [(i.name, [d.name for d in m]) for i, m in ch.instrument_tracks.items()]
+    rendered = hashlib.sha256((str(ch) + "\x00" + repr(ch)).encode("utf-8", "surrogatepass")).hexdigest()
+    return {"ok": True, "obs": hashlib.sha256(observe.digest(harness.obs(ch)).encode()).hexdigest(), "order": order,
+            "rendered": rendered, "logs": logs, "answers": answers(ch)}
 
 
 def answers(ch) -> list:
@@ -417,6 +424,7 @@ def history(rec, rng, texts, base, steps):
     prev = None
     last_chart = {}
     seq = []
+    held: list = []  # (text index, chart, step): a few returned charts are kept alive and asked again after LATER parses
     # a directed stretch first: the texts with long tempo maps in strict rotation, every chart dropped before the next parse
     # (object addresses are reused at once; anything kept "beside" a dead object by identity answers for its successor)
     longs = [k for k, t in enumerate(texts) if t.get("long_map")]
@@ -455,6 +463,30 @@ def history(rec, rng, texts, base, steps):
                           {"kind": "history", "texts": [{"text": x["text"], "want": x["want"], "path_bytes_hex": x.get("path_bytes_hex")} for x in texts], "sequence": seq[-60:]},
                           "parse-depends-on-history")
             return
+        # parse A, parse B (and C ...), then ask A: a chart that was returned earlier still shows and answers what a fresh
+        # interpreter's chart of its text does — nothing a later parse does may reach back into it
+        if held and rng.random() < 0.3:
+            hi_, hch, hs = held[rng.randrange(len(held))]
+            if hs < s:
+                rec.ev()
+                rec.cls("history:earlier_chart_asked_again_after_later_parses")
+                if texts[i]["kind"].startswith("failing"):
+                    rec.cls("history:earlier_chart_asked_again_after_a_failed_parse")
+                try:
+                    again = describe(hch, base[hi_]["logs"])
+                    d = diff(base[hi_], again)
+                except Exception as e:  # noqa
+                    d = f"observing it raised {type(e).__name__}: {e}"
+                if d:
+                    rec.violation("history-dependence", f"the chart returned by parse #{hs} (text #{hi_}) was observed again after parse #{s} (text #{i}, "
+                                  f"{t['kind']}): {d}",
+                                  {"kind": "history", "texts": [{"text": x["text"], "want": x["want"], "path_bytes_hex": x.get("path_bytes_hex")} for x in texts],
+                                   "sequence": seq[-60:], "held": [hi_, hs - (s - min(s, 59))]}, "earlier-chart-changed-by-later-parse")
+                    return
+        if got["ok"] and getattr(_LAST, "chart", None) is not None and rng.random() < 0.25:
+            held.append((i, _LAST.chart, s))
+            if len(held) > 4:
+                held.pop(rng.randrange(len(held)))
         if prev is not None:
             if texts[prev]["kind"].startswith("failing"):
                 rec.cls("history:after_failure")
@@ -563,6 +595,7 @@ def replay(case, rec):
     texts = [{"text": t["text"], "want": t["want"], "path_bytes_hex": t.get("path_bytes_hex"), "kind": "replay", "res": 0} for t in case["texts"]]
     base = baselines(texts)
     if case["kind"] == "history":
+        kept = []
         for s, i in enumerate(case["sequence"]):
             got = outcome_of(texts[i]["text"], texts[i]["want"], texts[i].get("path_bytes_hex"))
             rec.ev()
@@ -570,6 +603,17 @@ def replay(case, rec):
             if d:
                 rec.violation("history-dependence", f"step {s} (text #{i}): {d}", case)
                 return
+            for (hi_, hch, hs) in kept[-8:]:
+                rec.ev()
+                try:
+                    d = diff(base[hi_], describe(hch, base[hi_]["logs"]))
+                except Exception as e:  # noqa
+                    d = f"observing it raised {type(e).__name__}: {e}"
+                if d:
+                    rec.violation("history-dependence", f"the chart returned at step {hs} (text #{hi_}) observed again after step {s}: {d}", case)
+                    return
+            if got["ok"] and getattr(_LAST, "chart", None) is not None:
+                kept.append((i, _LAST.chart, s))
     else:
         for attempt in range(5):
             threaded_round(rec, texts, base, case["nthreads"], case["p"], f"{case['seed']}/{attempt}", case["rounds"])
